@@ -90,6 +90,73 @@
     }
 
 
+    // 128-bit integers are outside the statement ("integers up to 64 bits"): a first version of this unit also demanded
+    // i128 / u128 round trips and failed on the unchanged tree - `i128::deserialize(value)` always answers "i128 is not
+    // supported" because the deserializer does not forward `i128 u128` to deserialize_any. That is more than the property
+    // states, so those two obligations were removed (DESIGN §11); the behaviour is noted in DESIGN §7 as observed.
+//# ob name=roundtrip_usize stubs=format_unreachable fn=value::serialize::ValueSerializer+value::deserialize kind=complete stmt="every usize round-trips"
+//# ob name=roundtrip_isize stubs=format_unreachable fn=value::serialize::ValueSerializer+value::deserialize kind=complete stmt="every isize round-trips"
+    macro_rules! roundtrip_wide_nofail {
+        ($name:ident, $t:ty) => {
+            #[kani::proof]
+            #[kani::unwind(3)]
+            #[kani::stub(std::fmt::format, format_unreachable)]
+            fn $name() {
+                let x: $t = kani::any();
+                let v = Value::from(Serde(x));
+                // whatever integer repr is chosen, it denotes x exactly
+                let ok = match v.0 {
+                    ValueRepr::U64(y) => (x as i128 >= 0 || (x as u128 <= u64::MAX as u128 && (x as i128) >= 0)) && y as u128 == x as u128 && (x as u128) <= u64::MAX as u128 && !((x as i128) < 0 && <$t>::MIN != 0),
+                    ValueRepr::I64(y) => <$t>::MIN != 0 && y as i128 == x as i128,
+                    ValueRepr::I128(y) => <$t>::MIN != 0 && y.0 == x as i128,
+                    ValueRepr::U128(y) => <$t>::MIN == 0 && y.0 == x as u128,
+                    _ => false,
+                };
+                assert!(ok);
+                let back = <$t as serde::Deserialize>::deserialize(v.clone());
+                match back { Ok(y) => { assert!(y == x); } Err(e) => { std::mem::forget(e); assert!(false); } }
+                kani::cover!(true, "reached");
+                std::mem::forget(v);
+            }
+        };
+    }
+    roundtrip_wide_nofail!(roundtrip_usize, usize);
+    roundtrip_wide_nofail!(roundtrip_isize, isize);
+
+//# ob name=roundtrip_f32 stubs=format_unreachable fn=value::serialize::ValueSerializer+value::deserialize kind=complete stmt="every f32 serialises to the F64 repr holding exactly its value and deserialises back bit for bit (NaN by class: the widening / narrowing conversions may quieten a payload)"
+    #[kani::proof]
+    #[kani::unwind(3)]
+    #[kani::stub(std::fmt::format, format_unreachable)]
+    fn roundtrip_f32() {
+        let x: f32 = kani::any();
+        let v = Value::from(Serde(x));
+        match v.0 { ValueRepr::F64(y) => { assert!(x.is_nan() == y.is_nan()); if !x.is_nan() { assert!(y == x as f64 && (y as f32).to_bits() == x.to_bits()); } } _ => { assert!(false); } }
+        let back = <f32 as serde::Deserialize>::deserialize(v.clone());
+        match back { Ok(y) => { if x.is_nan() { assert!(y.is_nan()); } else { assert!(y.to_bits() == x.to_bits()); } } Err(e) => { std::mem::forget(e); assert!(false); } }
+        kani::cover!(x.is_nan(), "nan");
+        kani::cover!(x == 0.0 && x.is_sign_negative(), "negative zero");
+        std::mem::forget(v);
+    }
+
+//# ob name=roundtrip_char stubs=format_unreachable fn=value::serialize::ValueSerializer+value::deserialize kind=complete stmt="every char serialises to a string value holding exactly that character and deserialises back to itself"
+    #[kani::proof]
+    #[kani::unwind(6)]
+    #[kani::stub(std::fmt::format, format_unreachable)]
+    fn roundtrip_char() {
+        let x: char = kani::any();
+        let v = Value::from(Serde(x));
+        let mut buf = [0u8; 4];
+        let enc = x.encode_utf8(&mut buf).as_bytes();
+        match &v.0 {
+            ValueRepr::SmallStr(s) => { let b = s.as_str().as_bytes(); assert!(b.len() == enc.len()); let mut i = 0; while i < b.len() { assert!(b[i] == enc[i]); i += 1; } }
+            _ => { assert!(false); }
+        }
+        let back = <char as serde::Deserialize>::deserialize(v.clone());
+        match back { Ok(y) => { assert!(y == x); } Err(e) => { std::mem::forget(e); assert!(false); } }
+        kani::cover!(x as u32 >= 0x10000, "4-byte character");
+        std::mem::forget(v);
+    }
+
 //# ob name=roundtrip_option_u64 role=disabled fn=value::serialize::ValueSerializer+value::deserialize kind=complete stmt="Option<u64>: None serialises to none and Some(x) to x, and both deserialise back (for every x)"
     #[kani::proof]
     #[kani::unwind(3)]
